@@ -620,8 +620,8 @@ class Translator:
             qt = p['type']['qualType']
             if '*' in qt:
                 base = qt.replace('const ', '').replace('*', '').replace('restrict', '').replace('__restrict', '').strip()
-                if base.startswith('secp256k1_') and not re.match(r'secp256k1_u?int128', base):
-                    env[p['id']] = ('struct', p['name'])
+                if base.startswith('secp256k1_') and (not re.match(r'secp256k1_u?int128', base) or self.front.config == 'struct'):
+                    env[p['id']] = ('struct', p['name'])      # (emulated int128: a struct {lo, hi})
                 else:
                     env[p['id']] = ('array', p['name']); arrays.append(p['name'])
             else:
@@ -768,6 +768,17 @@ TARGET_SETS = {
         ('fe_half', 'secp256k1_fe_impl_half', 'int64', True),
         ('fe_negate', 'secp256k1_fe_impl_negate_unchecked', 'int64', True),
     ],
+    'int128struct': [
+        ('umul128', 'secp256k1_umul128', 'struct', True),
+        ('u128_mul', 'secp256k1_u128_mul', 'struct', True),
+        ('u128_accum_mul', 'secp256k1_u128_accum_mul', 'struct', True),
+        ('u128_accum_u64', 'secp256k1_u128_accum_u64', 'struct', True),
+        ('u128_rshift', 'secp256k1_u128_rshift', 'struct', True),
+        ('u128_to_u64', 'secp256k1_u128_to_u64', 'struct', True),
+        ('u128_hi_u64', 'secp256k1_u128_hi_u64', 'struct', True),
+        ('u128_from_u64', 'secp256k1_u128_from_u64', 'struct', True),
+        ('u128_check_bits', 'secp256k1_u128_check_bits', 'struct', True),
+    ],
     'scalar4x64': [
         ('scalar_mul_512', 'secp256k1_scalar_mul_512', 'native', True),
         ('scalar_reduce_512', 'secp256k1_scalar_reduce_512', 'native', True),
@@ -776,6 +787,7 @@ TARGET_SETS = {
         ('scalar_negate', 'secp256k1_scalar_negate', 'native', True),
         ('scalar_half', 'secp256k1_scalar_half', 'native', True),
         ('scalar_cadd_bit', 'secp256k1_scalar_cadd_bit', 'native', True),
+        ('scalar_mul_shift_var', 'secp256k1_scalar_mul_shift_var', 'native', True),
     ],
     'scalar8x32': [
         ('scalar_mul_512', 'secp256k1_scalar_mul_512', 'int64', True),
@@ -785,6 +797,7 @@ TARGET_SETS = {
         ('scalar_negate', 'secp256k1_scalar_negate', 'int64', True),
         ('scalar_half', 'secp256k1_scalar_half', 'int64', True),
         ('scalar_cadd_bit', 'secp256k1_scalar_cadd_bit', 'int64', True),
+        ('scalar_mul_shift_var', 'secp256k1_scalar_mul_shift_var', 'int64', True),
     ],
     'ct': [
         ('fe_cmov', 'secp256k1_fe_impl_cmov', 'native', False),
